@@ -382,6 +382,16 @@ def o4_o5_cases(state):
     csp = clone_as_symbol(srcp)
     if csp.assumptions0 != srcp.assumptions0 or csp.is_positive is not True:
         bad.append(f"clone_as_symbol of a positive symbol has assumptions {dict(csp.assumptions0)}")
+    # ... for every kind of source and every kind of clone, and for assumption sets other than `positive`
+    for kw in ({"positive": True}, {"integer": True, "nonnegative": True}, {"negative": True}, {"commutative": False}, {"real": True}):
+        for sn, src_ in (("Symbol", Symbol("n", units.mass, **kw)), ("IndexedSymbol", IndexedSymbol("n", None, units.mass, **kw))):
+            for cn, mk in (("clone_as_symbol", lambda s_: clone_as_symbol(s_)), ("clone_as_indexed", lambda s_: clone_as_indexed(s_)),
+                           ("clone_as_symbol with a subscript", lambda s_: clone_as_symbol(s_, subscript="1"))):
+                c_ = mk(src_)
+                if c_.assumptions0 != src_.assumptions0:
+                    bad.append(f"{cn} of a {sn} created with {kw} has assumptions {dict(c_.assumptions0)}, the source {dict(src_.assumptions0)}")
+                if c_.dimension is not src_.dimension:
+                    bad.append(f"{cn} of a {sn} lost the dimension")
     cnp = clone_as_indexed(srcp, positive=False, real=True)
     if cnp.is_positive is not False:
         bad.append("explicitly passed assumptions of an indexed clone are not honoured")
